@@ -366,6 +366,13 @@ var Schemas = []Schema{
 	{"stmt-ctx-dots-reused-twice-on-plus", func(g *G) *Change {
 		return &Change{Kind: "stmts", Meta: mv("x", "expression"), Lines: lines("+before(‹1:args›)", " tgtCall(«x», ‹1:args›)", "+after(‹1:args›, «x»)")}
 	}},
+	// an elision that is deleted at the very beginning / end of a statement pattern (next to the implicit one)
+	{"stmt-minus-leading-dots", func(g *G) *Change {
+		return &Change{Kind: "stmts", Meta: mv("x", "expression"), Lines: lines("-‹1:stmts›", "-tgtEnd(«x»)", "+replEnd(«x»)")}
+	}},
+	{"stmt-minus-trailing-dots", func(g *G) *Change {
+		return &Change{Kind: "stmts", Meta: mv("x", "expression"), Lines: lines("-tgtBegin(«x»)", "-‹1:stmts›", "+replBegin(«x»)")}
+	}},
 	// context lines whose Go code begins with a unary sign (the diff marker is the first column only)
 	{"expr-ctx-lines-starting-with-a-sign", func(g *G) *Change {
 		return &Change{Kind: "expr", Meta: mv("s", "expression", "o", "expression"), Lines: lines("-tgtReplace(", "+replReplace(", "   «s»,", "   -1,", "   +«o»,", "   -«s»,", " )")}
